@@ -156,6 +156,21 @@ Theorem C01_merge_first_result_under_wake_driven_executor scs :
 Proof. exact (merge_first_result scs). Qed.
 Print Assumptions C01_merge_first_result_under_wake_driven_executor.
 
+(* ... and from every reachable state: after ANY history ops, if the merge has not ended, has not been dropped and some input is still alive, the
+   wake-driven executor obtains the next item (or the end) within B rounds, B any bound on the remaining script lengths. *)
+Theorem C01_merge_next_result_under_wake_driven_executor scs ops B :
+  (forall i, i < length scs -> ended (nth i scs []) = true) -> (forall m st, In st (nth m scs []) -> answer st <> APanic) ->
+  let rnd := rounds mst m_n m_awaited (fun _ i => i) m_handle true true m_order m_pre_exit (fun _ => false) m_finish (fun s => s)
+               (fun s => drop_all_children (m_n s)) m_final (@no_mut mst) in
+  let w := merge_world true scs ops in
+  finished _ w = false -> dropped _ w = false -> m_complete (cs _ w) < length scs ->
+  (forall j, length (nth j (scripts _ w) []) <= B) -> 1 <= B ->
+  exists r, r < B /\ dropped _ (rnd (S r) w) = false /\ g_retpend _ (rnd (S r) w) = false /\
+            (forall r', r' <= r -> finished _ (rnd r' w) = false) /\
+            exists u o, tr _ (rnd (S r) w) = tr _ (rnd r w) ++ u ++ [EEndR o].
+Proof. intros He Hp rnd w Hf Hd Hc. exact (merge_next_result scs He Hp (Nat.le_lt_trans _ _ _ (Nat.le_0_l _) Hc) ops B Hf Hd Hc). Qed.
+Print Assumptions C01_merge_next_result_under_wake_driven_executor.
+
 (* non-vacuity: a history that reaches a state satisfying all premises of C01_join: child 0 pends, its waker fires after the poll *)
 Example C01_witness :
   let scs := [[{| fires := []; answer := APend |}]; [{| fires := []; answer := APend |}]] in
